@@ -172,6 +172,45 @@ def node_as_word(interp, v, ty):
     return None
 
 
+def check_forgiveness_value(ctx, facts, rule):
+    """the forgiveness period of the analysed (non-test) build is the one hour the properties are stated for: the constant is evaluated by
+    interpreting its defining body (the `cfg!(test)` switch is already decided by the compiler in the facts of this build), whatever unit
+    or helper constant it is written with.  (Round 8, C01i: seconds written into a milliseconds constant — 3.6 s in every real build, 0
+    under cfg(test) as before.)"""
+    NS = {'from_secs': 10 ** 9, 'from_millis': 10 ** 6, 'from_micros': 10 ** 3, 'from_nanos': 1}
+    fp = [b for n, b in facts.bodies.items() if n.startswith(CR + '::') and n.endswith('::FORGIVENESS_PERIOD') and not b.d['promoted']]
+    if len(fp) != 1:
+        ctx.notes.append('%s: FORGIVENESS_PERIOD not found as one constant: its value is not decided' % rule)
+        return
+
+    def hook(interp, name, args, t, body):
+        seg = last_seg(name)
+        if name.startswith('core::time::Duration::') and seg in NS and args and args[0][0] == 'int' and args[0][1] is not None:
+            return ('durns', args[0][1] * NS[seg])
+        if name == 'core::time::Duration::new' and len(args) == 2 and all(a[0] == 'int' and a[1] is not None for a in args):
+            return ('durns', args[0][1] * 10 ** 9 + args[1][1])
+        if name in ('core::time::Duration::from_secs_f64', 'core::time::Duration::from_secs_f32'):
+            raise Unmodelled('a float duration')
+        if args and seg in ('saturating_mul', 'mul', 'checked_mul') and args[0][0] == 'durns' and len(args) == 2 and args[1][0] == 'int' and args[1][1] is not None:
+            return ('durns', args[0][1] * args[1][1])
+        return None
+    try:
+        it = Interp(facts, Order({}), opaque_call=hook)
+        v = it.run_body(fp[0], [])
+        v = it.deref_all(v)
+    except (Unmodelled, absint.PanicPath, absint.NeedChoice, IndexError, TypeError, KeyError) as e:
+        ctx.notes.append('%s: FORGIVENESS_PERIOD could not be evaluated (%s): its value is not decided' % (rule, e))
+        return
+    if v is None or v[0] != 'durns':
+        ctx.notes.append('%s: FORGIVENESS_PERIOD does not evaluate to a duration the rule reads: not decided' % rule)
+        return
+    good = v[1] == 3600 * 10 ** 9
+    ctx.ob(rule, 'forgiveness-period|one hour in the non-test build', good, '%s:%s' % (fp[0].file, fp[0].line),
+           'FORGIVENESS_PERIOD evaluates to 3600 s in the analysed (non-test) build' if good else
+           'FORGIVENESS_PERIOD evaluates to %.3f s in the analysed (non-test) build, the properties are stated for the one-hour window: operations that arrive later than '
+           'that (but within the hour) are refused as already observed, tombstones are purged while older operations are still on their way' % (v[1] / 1e9))
+
+
 def mk_interp(facts, ranks):
     it = Interp(facts, rank_order(ranks), opaque_call=ts_algebra)
     it.ext_binop = word_binop
